@@ -277,6 +277,85 @@ class FromFnIter(Iter):
         return I.call_value(mkref(self.f) if isinstance(self.f, Closure) else self.f, [])
 
 
+class SuccessorsIter(Iter):
+    def __init__(self, first, f):
+        self.cur, self.f = first, f
+
+    def next(self, I):
+        cur = self.cur
+        if not cur.variant:
+            return cur
+        cell = [cur.fields[0]]
+        self.cur = I.call_value(mkref(self.f) if isinstance(self.f, Closure) else self.f, [Ref(LV(cell, 0))])
+        return Some(cell[0])
+
+
+class StepByIter(Iter):
+    def __init__(self, src, n):
+        self.src, self.n, self.first = src, n, True
+
+    def next(self, I):
+        if self.first:
+            self.first = False
+            return self.src.next(I)
+        for _ in range(self.n - 1):
+            x = self.src.next(I)
+            if not x.variant:
+                return x
+        return self.src.next(I)
+
+
+class MapWhileIter(Iter):
+    def __init__(self, src, f):
+        self.src, self.f, self.done = src, f, False
+
+    def next(self, I):
+        if self.done:
+            return NONE()
+        x = self.src.next(I)
+        if not x.variant:
+            return x
+        r = I.call_value(self.f, [x.fields[0]])
+        if not r.variant:
+            self.done = True
+        return r
+
+
+class ScanIter(Iter):
+    def __init__(self, src, state, f):
+        self.src, self.cell, self.f, self.done = src, [state], f, False
+
+    def next(self, I):
+        if self.done:
+            return NONE()
+        x = self.src.next(I)
+        if not x.variant:
+            return x
+        r = I.call_value(self.f, [Ref(LV(self.cell, 0)), x.fields[0]])
+        if not r.variant:
+            self.done = True
+        return r
+
+
+def _try_break(r):
+    """does a Try value (Result / Option / ControlFlow) short-circuit?"""
+    r = deref1(r)
+    if r.name == 'Option':
+        return r.variant == 0
+    return r.variant == 1
+
+
+def _try_continue(path, sample, v):
+    """wrap v as the 'continue' value of the Try type in use"""
+    name = deref1(sample).name if sample is not None else ('Option' if 'Option<' in path and 'Result<' not in path else
+                                                           'ControlFlow' if 'ControlFlow<' in path else 'Result')
+    if name == 'Option':
+        return Some(v)
+    if name == 'ControlFlow':
+        return Adt('ControlFlow', 0, [v])
+    return Ok(v)
+
+
 class FlattenIter(Iter):
     def __init__(self, src):
         self.src, self.cur = src, None
@@ -398,6 +477,11 @@ def m_into_iter(I, path, args):
 @R.model(r'^(core|std)::slice::(iter|iter_mut)$')
 def m_slice_iter(I, path, args):
     return to_iter(I, args[0] if isinstance(args[0], Ref) else mkref(args[0])) if not isinstance(deref1(args[0]), PySlice) else ListIter(deref1(args[0]).ref_items())
+
+
+@R.model(r'^(std::iter::)?successors$')
+def m_successors(I, path, args):
+    return SuccessorsIter(args[0], args[1])
 
 
 @R.model(r'^std::iter::from_fn$')
@@ -533,7 +617,70 @@ def m_iter_method(I, path, args):
             r = I.call_value(args[1], [x.fields[0]])
             if r.variant:
                 return r
-    if meth in ('position', 'rposition'):
+    if meth == 'rposition':
+        xs = drain_all(I, it)
+        for k in range(len(xs) - 1, -1, -1):
+            if c.branch(I.call_value(args[1], [xs[k]])):
+                return Some(k)
+        return NONE()
+    if meth == 'step_by':
+        if args[1] == 0:
+            raise Panic('step_by(0)')
+        return StepByIter(it, args[1])
+    if meth == 'map_while':
+        return MapWhileIter(it, args[1])
+    if meth == 'scan':
+        return ScanIter(it, args[1], args[2])
+    if meth == 'try_for_each':
+        last = None
+        while True:
+            x = it.next(I)
+            if not x.variant:
+                return _try_continue(path, last, UNIT())
+            last = I.call_value(args[1], [x.fields[0]])
+            if _try_break(last):
+                return last
+    if meth == 'try_fold':
+        acc, last = args[1], None
+        while True:
+            x = it.next(I)
+            if not x.variant:
+                return _try_continue(path, last, acc)
+            last = I.call_value(args[2], [acc, x.fields[0]])
+            if _try_break(last):
+                return last
+            acc = deref1(last).fields[0]
+    if meth == 'reduce':
+        x = it.next(I)
+        if not x.variant:
+            return x
+        acc = x.fields[0]
+        while True:
+            x = it.next(I)
+            if not x.variant:
+                return Some(acc)
+            acc = I.call_value(args[1], [acc, x.fields[0]])
+    if meth in ('max_by', 'min_by'):
+        xs = drain_all(I, it)
+        if not xs:
+            return NONE()
+        best = xs[0]
+        for x in xs[1:]:
+            o = I.call_value(args[1], [mkref(best), mkref(x)])      # Ordering of (best, x): 0 Less, 1 Equal, 2 Greater
+            if meth == 'max_by':
+                if o.variant != 2:      # later element wins ties
+                    best = x
+            else:
+                if o.variant == 2:
+                    best = x
+        return Some(best)
+    if meth == 'ne':
+        a = drain_all(I, it)
+        b = drain_all(I, to_iter(I, args[1]))
+        if len(a) != len(b):
+            return True
+        return z_not(z_all(val_eq(x, y) for x, y in zip(a, b)))
+    if meth == 'position':
         k = 0
         while True:
             x = it.next(I)
